@@ -58,7 +58,7 @@ def rw1(F, R):
     if not ok:
         R.bad("RW1", "RW1/Sodg::bind/no-edge-insert", b.where(), "bind(v1, v2, a) does not perform edges(v1).insert(a, v2)")
     for e in ok:
-        guards = [f for f in e.facts if "Level" not in repr(f)]
+        guards = e.conditions()
         if not e.uncond or guards:
             R.bad("RW1", "RW1/Sodg::bind/edge-insert-conditional", e.where(),
                   "the edge is recorded only on some paths of bind(): kid() misses an edge that was bound",
@@ -206,7 +206,7 @@ def rw45(F, R):
     for e in dw:
         v = strip_load(e.val)
         okv = v[0] == "call" and v[1].split("::")[-1] == "clone" and strip_load(v[2][0]) == ("param", 3)
-        guards = [f for f in e.facts if "Level" not in repr(f)]
+        guards = e.conditions()
         if not is_param_vertex(e.x, 2) or not okv:
             R.bad("RW4", "RW4/Sodg::put/stored-value", e.where(), "put(v, d) does not store a copy of exactly `d` in v", {"value": show(e.val, e.body)})
         elif guards or not e.uncond:
